@@ -140,12 +140,31 @@ class DC:
     child: object
     tag: int = 0
 
+class Flaky:
+    # a printer that takes the trailing comment itself, renders its child and then fails with a TypeError
+    def __init__(self, child): self.child = child
+    def __repr__(self): return 'Flaky(...)'
+
+@pp.register_pretty(Flaky)
+def _pf(v, ctx, trailing_comment=None):
+    from prettyprinter.prettyprinter import pretty_python_value
+    pretty_python_value(v.child, ctx)
+    raise TypeError('flaky')
+
 def nest(f, n, base):
     v = base
     for _ in range(n): v = f(v)
     return v
 
 FAMS = {
+    # binary data: nearly every byte is written as a four-column escape, in a literal that has to be split
+    'binary_bytes': (lambda n: [bytes(range(256)) * n], {}),
+    'binary_bytes_nested': (lambda n: nest(lambda v: [v, bytes(range(128, 256)) * 2], n, b'\xff' * 50), {}),
+    # failing printers at every level, each under a trailing comment (the dispatcher may have to call a printer a second time
+    # without the comment - never more often): a printer raising TypeError after it rendered its child; comment texts of a wrong type
+    'failing_printers_under_trailing_comments': (lambda n: nest(lambda v: pp.trailing_comment(Flaky(v), 'c'), n, 1), {}),
+    'trailing_comments_of_wrong_type': (lambda n: nest(lambda v: pp.trailing_comment([v], b'c'), n, 1), {}),
+    'trailing_comments_of_wrong_type_in_dicts': (lambda n: nest(lambda v: pp.trailing_comment({'k': v}, b'c'), n, 1), {}),
     'repr_pretty_nested': (lambda n: nest(Box, n, 1), {}),
     'repr_pretty_pairs': (lambda n: nest(lambda v: Pair(0, v), n, 1), {}),
     'repr_pretty_in_lists': (lambda n: nest(lambda v: [Box(v)], n, 1), {}),
@@ -172,7 +191,10 @@ for name, (fam, st) in FAMS.items():
         if dflt:
             pp.set_default_config(**dflt)
         try:
-            s, over = C.count_steps(fam(n), **st)
+            import warnings
+            with warnings.catch_warnings():
+                warnings.simplefilter('ignore')
+                s, over = C.count_steps(fam(n), **st)
         finally:
             if dflt:
                 pp.set_default_config(sort_dict_keys=False)
@@ -272,7 +294,7 @@ def cost_section(tier, seed):
     stats = {'evaluations': tot, 'distinct_nontrivial': nt, 'families': len(rows), 'sizes': [base * m for m in mults],
              'ratio_limit': RATIO, 'rows': rows, 'mismatches': 0,
              'samples': [{'family': 'nested_dicts_3keys', 'steps': rows['nested_dicts_3keys']['steps']}],
-             'rule': 'LINE events inside /repo/prettyprinter (sys.monitoring) for %d families (incl. 10 measured in a fresh interpreter with the ipython_repr_pretty / dataclasses / attrs extras: nested _repr_pretty_ objects, unorderable dict keys whose repr is pretty_repr, nested dataclasses) at n = %s; a family fails if a doubling multiplies the step count by more than %.0f, '
+             'rule': 'LINE events inside /repo/prettyprinter (sys.monitoring) for %d families (incl. 15 measured in a fresh interpreter with the ipython_repr_pretty / dataclasses / attrs extras: nested _repr_pretty_ objects, unorderable dict keys whose repr is pretty_repr, nested dataclasses) at n = %s; a family fails if a doubling multiplies the step count by more than %.0f, '
                      'if the step budget is exceeded, or if steps exceed 4 x the calibrated constant x the model cost (printer invocations + machine and lookahead iterations); '
                      'non-trivial = families measured' % (len(rows), [base * m for m in mults], RATIO)}
     return stats, mism, fails
